@@ -114,7 +114,21 @@ CLAIMS = {
 }
 
 
+ROUND6 = {   # clauses added in the sixth round (DESIGN.md section 11.6)
+    "C03": " Also decided: the exit test uses a zero absolute tolerance (numpy's default 1e-8 hides sub-10-nA quantities), and a kind whose input current is known before the first sweep (ILoad) seeds the solver with that current for the phase being solved.",
+    "C09": " Phase silence is decided per component type: exactly converter, regulator, switch, mux and load are silent when their table does not list the phase; source, series loss and rectifier are always evaluated.",
+    "C10": " The abscissa handed to np.interp rises by magnitude (validated on magnitudes, or sorted by the class together with the values).",
+    "C12": " The document's fixed keys and the name-derived keys must be disjoint by construction (known finding K2: they are not).",
+    "C13": " The type gate of the reference loader accepts any dict for a table parameter (inline tables are parsed into a dict subclass).",
+    "C14": " Duplicate PMux inputs are decided on resolved components (a parent may be named by name or by rail).",
+    "C18": " The name-resolving helpers do not resolve the empty string (the registry's 'no rail' value) to a component.",
+}
+
+
 def main():
+    for k, v in ROUND6.items():
+        if not CLAIMS[k]["text"].endswith(v):
+            CLAIMS[k]["text"] += v
     checks = []
     for pid in ALL:
         if pid not in CLAIMS:
